@@ -33,35 +33,41 @@ func runC14(p *Program, e *Engine, r *Result, tier string) {
 		return
 	}
 	ro := a.Ro
-	// (1) constructors
+	// (1) constructors (helpers shared by the two are inlined by the walk)
 	for _, ctor := range []*ssa.Function{ro.NewWatcher, ro.NewBuffered} {
-		c := a.E.rootCtx(ctor)
+		cw := a.E.Walk(ctor, WalkOpts{Stop: func(f *ssa.Function) bool { return f == ro.Ctor }})
+		a.R.Sites += len(cw.Visits)
 		var mk *ssa.MakeChan
+		var mkCtx *Ctx
 		nMk := 0
-		for _, b := range ctor.Blocks {
-			for _, in := range b.Instrs {
-				if m, ok := in.(*ssa.MakeChan); ok && chanKind(ro, m.Type()) == "Events" {
-					mk = m
-					nMk++
-				}
+		for _, v := range cw.Visits {
+			if m, ok := v.Instr.(*ssa.MakeChan); ok && chanKind(ro, m.Type()) == "Events" {
+				mk, mkCtx = m, v.Ctx
+				nMk++
 			}
 		}
-		a.R.Sites += len(ctor.Blocks)
 		if mk == nil || nMk != 1 {
 			a.R.ob("C14.1", ctor.Name()+":make", "the constructor makes exactly one event channel", a.P.pos(ctor.Pos()), false, sprintf("%d make(chan Event) site(s)", nMk))
 			continue
 		}
-		size := stripConv(mk.Size)
-		sp := c.path(mk.Size)
+		sz, szCtx := mkCtx.resolve(stripConv(mk.Size))
+		for {
+			if cv, ok := sz.(*ssa.Convert); ok {
+				sz, szCtx = szCtx.resolve(cv.X)
+				continue
+			}
+			break
+		}
+		sp := stripIDs(mkCtx.path(mk.Size))
 		if ctor == ro.NewBuffered {
-			ok := len(ctor.Params) == 1 && size == ssa.Value(ctor.Params[0])
+			ok := len(ctor.Params) == 1 && sz == ssa.Value(ctor.Params[0]) && szCtx.Parent == nil
 			a.R.ob("C14.1", ctor.Name()+":capacity", "the capacity of Events is exactly the requested size", a.P.instrPos(mk), ok, "size operand: "+sp)
 		} else {
-			// load of a package variable shown constant by E-F
 			ok := false
 			wit := "size operand: " + sp
-			if ld, isLd := size.(*ssa.UnOp); isLd {
-				if g, isG := ld.X.(*ssa.Global); isG {
+			switch x := sz.(type) {
+			case *ssa.UnOp:
+				if g, isG := x.X.(*ssa.Global); isG {
 					if k, folded := a.E.Fold[g]; folded {
 						ok = true
 						wit = sprintf("size is the package variable %s, constant %s by E-F", g.Name(), k.Value)
@@ -69,7 +75,7 @@ func runC14(p *Program, e *Engine, r *Result, tier string) {
 						wit = sprintf("size is the package variable %s, which is not constant (it has another writer)", g.Name())
 					}
 				}
-			} else if _, isK := size.(*ssa.Const); isK {
+			case *ssa.Const:
 				ok = true
 				wit = "constant " + sp
 			}
@@ -77,18 +83,22 @@ func runC14(p *Program, e *Engine, r *Result, tier string) {
 		}
 		// the made channel goes to Watcher.Events and to the backend constructor
 		toField, toCtor := false, false
-		if refs := mk.Referrers(); refs != nil {
-			for _, rr := range *refs {
-				switch x := rr.(type) {
-				case *ssa.Store:
-					if f := fieldOf(x.Addr); f != nil && ro.StructOf[f] == nil && f.Name() == "Events" {
-						toField = true
-					}
-					if f := fieldOf(x.Addr); f != nil && containsVar(ro.EventChans, f) {
-						toField = true
-					}
-				case *ssa.Call:
-					if x.Call.StaticCallee() == ro.Ctor {
+		for _, v := range cw.Visits {
+			switch x := v.Instr.(type) {
+			case *ssa.Store:
+				f := fieldOf(x.Addr)
+				if f == nil || !containsVar(ro.EventChans, f) || ro.StructOf[f] != ro.Watcher {
+					continue
+				}
+				if rv, _ := v.Ctx.resolve(x.Val); rv == ssa.Value(mk) {
+					toField = true
+				}
+			case *ssa.Call:
+				if v.Ctx.calleeOf(&x.Call) != ro.Ctor {
+					continue
+				}
+				for _, arg := range x.Call.Args {
+					if rv, _ := v.Ctx.resolve(arg); rv == ssa.Value(mk) {
 						toCtor = true
 					}
 				}
@@ -125,7 +135,7 @@ func runC14(p *Program, e *Engine, r *Result, tier string) {
 		}
 		for _, b := range fn.Blocks {
 			for _, in := range b.Instrs {
-				if m, ok := in.(*ssa.MakeChan); ok && chanKind(ro, m.Type()) == "Events" {
+				if m, ok := in.(*ssa.MakeChan); ok && chanKind(ro, m.Type()) == "Events" && !sharedCtorHelper(a, fn) {
 					a.R.ob("C14.1", "extra-make@"+shortFn(fn), "no event channel is made outside the two constructors", a.P.instrPos(m), false, "")
 				}
 			}
@@ -146,6 +156,22 @@ func runC14(p *Program, e *Engine, r *Result, tier string) {
 	}
 	// (3)
 	c03NoChanLen(a, "C14.3")
+}
+
+// sharedCtorHelper: fn is a package helper called by both public constructors (and is not the backend constructor).
+func sharedCtorHelper(a *An, fn *ssa.Function) bool {
+	ro := a.Ro
+	calls := func(from *ssa.Function) bool {
+		for _, b := range from.Blocks {
+			for _, in := range b.Instrs {
+				if c, ok := in.(*ssa.Call); ok && c.Call.StaticCallee() == fn {
+					return true
+				}
+			}
+		}
+		return false
+	}
+	return fn != ro.Ctor && calls(ro.NewWatcher) && calls(ro.NewBuffered)
 }
 
 func sharedStateType(t types.Type, depth int) string {
